@@ -116,6 +116,12 @@ static void drive(int cap)
         if (vr_nviol || empty) break;
         running_pid = pid_of(q->heap[1].item[1]);     /* the subject of every wake-up event is the process it resumes */
         for (int pl = 0; pl < NPL; pl++) ppre_pid[pl] = -1;
+        /* C09: nothing addressed to an ended process may fire any more (a user's own event about it excepted), however soon after its end */
+        if (running_pid >= 0 && procs[running_pid].ended && !procs[running_pid].start_pending) {
+            bool users = false; for (int e = 0; e < npev; e++) if (PEV[e].pending && PEV[e].subj_pid == running_pid && PEV[e].h == q->heap[1].key) users = true;
+            if (!users) { VIOL("C09/event-fires-after-end", "an event addressed to process %d fires at t=%g although the process ended (%s) at t=%g and was not restarted", running_pid, next_t, routename[procs[running_pid].route], procs[running_pid].end_time); return; }
+            VR_CNT("c09_user_events_about_ended_process_fired");
+        }
         if (!cmb_event_execute_next()) break;
         events++;
         if (cmb_time() < last_t) VIOL("C01/clock-decreased", "clock went from %g to %g", last_t, cmb_time());
